@@ -16,7 +16,7 @@ FID = "(f | id)"
 def _parse(path, what):
     import re
     txt = textwrap.dedent(path.text.replace("\t", "    "))
-    txt = re.sub(r"\b(P\d+)\.(\d+)\b", r"\1_dot\2", txt)  # `{{ n }}.0` - a number literal continued by the template text
+    txt = re.sub(r"\b(Pz\d+z)\.(\d+)\b", r"\1_dot\2", txt)  # `{{ n }}.0` - a number literal continued by the template text
     lines = txt.split("\n")
     nonempty = [i for i, ln in enumerate(lines) if ln.strip()]
     if len(nonempty) > 1:
